@@ -42,7 +42,8 @@ def jobs(tier, seed):
     else:
         add(['fixed', 'fixed', 'fixed', 'hop2'], [0, 1, 1, 0], 3)
         add(['hop1', 'fixed', 'fixed', 'fixed'], [1, 0, 1, 0], 1)
-    add(['rehop2', 'fixed'], [0, 1], 0); add(['fixed', 'rehop2'], [1, 1], 0); add(['rehop3', 'rehop2', 'fixed'], [1, 0, 1], 0); add(['rehop1', 'hop2'], [1, 0], 1)
+    add(['rehop2', 'fixed'], [0, 1], 0); add(['fixed', 'rehop2'], [1, 1], 0); add(['rehop1', 'hop2'], [1, 0], 1)
+    if tier == 'thorough': add(['rehop3', 'rehop2', 'fixed'], [1, 0, 1], 0)
     return out
 
 
